@@ -459,7 +459,7 @@ def prec_rule(repo, res, rule="PREC"):
     builders = {}
     for name, f in fns.items():
         vs = [v for v in ("Fallback", "Alternative", "Sequence") if list(P.ctor_sites(f.body, "Expr::" + v))]
-        if vs and any(x["k"] in ("While", "ForLoop", "Loop") for x in A.walk(f.body)):
+        if vs:
             builders[name] = vs
     res.check(len(builders) >= 3 and bool(bracketed), rule, f"{rule}:parse:found", f"n-ary node builders {sorted(builders)}; bracketed constructs parsed by {sorted(bracketed)}", "src/parse.rs")
     for name, vs in sorted(builders.items()):
